@@ -13,9 +13,11 @@ if len(sys.argv) > 1:
     names = [n for n in names if any(a in n for a in sys.argv[1:])]
     if os.path.exists(regfile):
         out = json.load(open(regfile))        # partial run: keep the other entries
+if os.environ.get('OWN_ONLY') and os.path.exists(regfile):
+    out = json.load(open(regfile))        # own-property run: keep what is known about the other checks
 for n in names:
     meta = json.load(open(os.path.join(root, n, 'meta.json')))
-    props = [meta['property']] + list(meta.get('also', []))
+    props = [meta['property']] + ([] if os.environ.get('OWN_ONLY') else list(meta.get('also', [])))
     assert subprocess.run(['git', '-C', '/repo', 'status', '--porcelain', '--untracked-files=no'],
                           stdout=subprocess.PIPE, text=True).stdout.strip() == ''
     res = {}
@@ -33,7 +35,7 @@ for n in names:
             res[p] = {'exit': q.returncode, 'violation_lines': len(v), 'concrete': len(concrete)}
     finally:
         subprocess.run(['git', '-C', '/repo', 'checkout', '--', '.'], check=True)
-    out[n] = res
+    out[n] = dict(out.get(n, {}), **res) if os.environ.get('OWN_ONLY') and isinstance(out.get(n), dict) else res
     print(n, ' '.join('%s:%s' % (p, 'CONCRETE' if r['concrete'] else ('diverge-only' if r['exit'] == 1 else 'MISSED'))
                       for p, r in res.items()), flush=True)
 json.dump(out, open(regfile, 'w'), indent=1, sort_keys=True)
